@@ -25,6 +25,9 @@ Model/Vdi.vos Model/Vdi.vok Model/Vdi.required_vos: Model/Vdi.v Base/Plan.vos Ba
 Model/Vhd.vo Model/Vhd.glob Model/Vhd.v.beautified Model/Vhd.required_vo: Model/Vhd.v Base/Arith.vo Base/Plan.vo Base/Table.vo Gen/Consts.vo
 Model/Vhd.vio: Model/Vhd.v Base/Arith.vio Base/Plan.vio Base/Table.vio Gen/Consts.vio
 Model/Vhd.vos Model/Vhd.vok Model/Vhd.required_vos: Model/Vhd.v Base/Arith.vos Base/Plan.vos Base/Table.vos Gen/Consts.vos
+Model/Vhdx.vo Model/Vhdx.glob Model/Vhdx.v.beautified Model/Vhdx.required_vo: Model/Vhdx.v Base/Plan.vo Base/Table.vo Model/Walk.vo Gen/Consts.vo
+Model/Vhdx.vio: Model/Vhdx.v Base/Plan.vio Base/Table.vio Model/Walk.vio Gen/Consts.vio
+Model/Vhdx.vos Model/Vhdx.vok Model/Vhdx.required_vos: Model/Vhdx.v Base/Plan.vos Base/Table.vos Model/Walk.vos Gen/Consts.vos
 Model/Walk.vo Model/Walk.glob Model/Walk.v.beautified Model/Walk.required_vo: Model/Walk.v Base/Plan.vo
 Model/Walk.vio: Model/Walk.v Base/Plan.vio
 Model/Walk.vos Model/Walk.vok Model/Walk.required_vos: Model/Walk.v Base/Plan.vos
@@ -37,6 +40,12 @@ Proofs/Vdi.vos Proofs/Vdi.vok Proofs/Vdi.required_vos: Proofs/Vdi.v Base/Arith.v
 Proofs/Vhd.vo Proofs/Vhd.glob Proofs/Vhd.v.beautified Proofs/Vhd.required_vo: Proofs/Vhd.v Base/Arith.vo Base/Plan.vo Base/Table.vo Model/Vhd.vo
 Proofs/Vhd.vio: Proofs/Vhd.v Base/Arith.vio Base/Plan.vio Base/Table.vio Model/Vhd.vio
 Proofs/Vhd.vos Proofs/Vhd.vok Proofs/Vhd.required_vos: Proofs/Vhd.v Base/Arith.vos Base/Plan.vos Base/Table.vos Model/Vhd.vos
+Proofs/Vhdx.vo Proofs/Vhdx.glob Proofs/Vhdx.v.beautified Proofs/Vhdx.required_vo: Proofs/Vhdx.v Base/Arith.vo Base/Plan.vo Base/Table.vo Base/Layout.vo Model/Walk.vo Model/Vhdx.vo Proofs/BlockMapped.vo Gen/Layouts.vo
+Proofs/Vhdx.vio: Proofs/Vhdx.v Base/Arith.vio Base/Plan.vio Base/Table.vio Base/Layout.vio Model/Walk.vio Model/Vhdx.vio Proofs/BlockMapped.vio Gen/Layouts.vio
+Proofs/Vhdx.vos Proofs/Vhdx.vok Proofs/Vhdx.required_vos: Proofs/Vhdx.v Base/Arith.vos Base/Plan.vos Base/Table.vos Base/Layout.vos Model/Walk.vos Model/Vhdx.vos Proofs/BlockMapped.vos Gen/Layouts.vos
+Props/C03.vo Props/C03.glob Props/C03.v.beautified Props/C03.required_vo: Props/C03.v Base/Plan.vo Base/Table.vo Model/Vhdx.vo Proofs/Vhdx.vo
+Props/C03.vio: Props/C03.v Base/Plan.vio Base/Table.vio Model/Vhdx.vio Proofs/Vhdx.vio
+Props/C03.vos Props/C03.vok Props/C03.required_vos: Props/C03.v Base/Plan.vos Base/Table.vos Model/Vhdx.vos Proofs/Vhdx.vos
 Props/C04.vo Props/C04.glob Props/C04.v.beautified Props/C04.required_vo: Props/C04.v Base/Plan.vo Base/Table.vo Model/Vhd.vo Proofs/Vhd.vo
 Props/C04.vio: Props/C04.v Base/Plan.vio Base/Table.vio Model/Vhd.vio Proofs/Vhd.vio
 Props/C04.vos Props/C04.vok Props/C04.required_vos: Props/C04.v Base/Plan.vos Base/Table.vos Model/Vhd.vos Proofs/Vhd.vos
